@@ -279,6 +279,7 @@ func (s *SMT) CommitParallel(unsortedOps map[uint64]valueOp) (err lib.ErrorI) {
 			// prepare traversal state, then commit this subtree's operations
 			subtree.reset()
 			commitErr := subtree.commit(true)
+			defer verifC08Park(idx)() // verif seam (no-op unless built with -tags verif): completion order of the workers
 			// report the outcome back to the collector
 			resultChan <- subtreeResult{
 				index: idx,
